@@ -25,7 +25,7 @@ Qed.
 Lemma doer_exec_events fl st c : exists l, d_events (fst (doer_exec fl st c)) = d_events st ++ l.
 Proof.
   destruct (doer_exec fl st c) as [st' e] eqn:H. cbn [fst].
-  destruct c; cbn [doer_exec] in H; unfold open_for_write, write_chunk, stamp_file in H;
+  destruct c; cbn [doer_exec] in H; unfold open_for_write, write_chunk, stamp_file, refuses, write_fails in H;
     repeat (break_match_hyp H; try discriminate); inv_pair H; dsimpl;
     try (exists []; rewrite app_nil_r; reflexivity); try (eexists; reflexivity).
 Qed.
@@ -127,20 +127,29 @@ Lemma chunk_effect fl st p data mt more :
   d_open (fst (doer_exec fl st c)) = (if more then Some p else None).
 Proof.
   intros c Hok Hn Hopen old. subst c old. cbn [doer_exec] in *.
-  destruct (open_for_write st p) as [st1|st1|e] eqn:Eo; cbn [fst snd] in *; try discriminate.
+  destruct (refuses st p); [discriminate|].
+  set (st0 := with_failed st (if more then Some p else None)) in *.
+  assert (Ho0 : d_open st0 = d_open st) by reflexivity.
+  assert (Hf0 : d_fs st0 = d_fs st) by reflexivity.
+  assert (He0 : d_events st0 = d_events st) by reflexivity.
+  assert (Hr0 : resolve_above st0 p = resolve_above st p) by reflexivity.
+  destruct (open_for_write st0 p) as [st1|st1|e] eqn:Eo; cbn [fst snd] in *; try discriminate.
   - (* the file is open inside the tree *)
     assert (Hst1 : file_data (d_fs st1) p = match d_open st with Some _ => file_data (d_fs st) p | None => [] end
                    /\ d_events st1 = d_events st).
-    { unfold open_for_write in Eo. destruct Hopen as [Ho|(Ho & m & old & Ep)]; rewrite Ho in Eo |- *.
+    { unfold open_for_write in Eo. rewrite Ho0, Hr0, Hf0 in Eo.
+      destruct Hopen as [Ho|(Ho & m & old & Ep)]; rewrite Ho in Eo |- *.
       - destruct (resolve_above st p); try discriminate.
         destruct (fget (d_fs st) p) as [[m old| |t [| |]]|]; inv_pair Eo; dsimpl; rewrite file_data_set; auto.
       - unfold path_eqb in Eo. destruct (path_eq_dec p p); [|congruence]. rewrite Ep in Eo. inv_pair Eo. dsimpl. auto. }
-    destruct Hst1 as [Hd _]. split.
-    + destruct mt as [t|]; unfold stamp_file, write_chunk; dsimpl; rewrite ?fget_fset_eq, ?file_data_set, Hd;
-        [exists 0%N | exists (d_tick st1)]; reflexivity.
+    destruct Hst1 as [Hd _].
+    destruct (write_fails st1); cbn [fst snd] in *; [discriminate|]. split.
+    + destruct mt as [t|]; unfold stamp_file, write_chunk; dsimpl; rewrite ?fget_fset_eq, ?file_data_set;
+        cbn [d_fs count_write]; rewrite Hd; [exists 0%N | exists (d_tick st1)]; reflexivity.
     + destruct mt; unfold stamp_file, write_chunk; dsimpl; reflexivity.
   - (* the open went outside the tree: either a Through event was logged now, or the handle was already outside *)
-    exfalso. unfold open_for_write in Eo. destruct Hopen as [Ho|(Ho & m & old & Ep)]; rewrite Ho in Eo.
+    exfalso. unfold open_for_write in Eo. rewrite Ho0, Hr0, Hf0 in Eo.
+    destruct Hopen as [Ho|(Ho & m & old & Ep)]; rewrite Ho in Eo.
     + destruct (resolve_above st p) as [|q|e]; try discriminate.
       * destruct (fget (d_fs st) p) as [[m old| |t [| |]]|]; inv_pair Eo;
           apply Hn; eexists; (split; [dsimpl; reflexivity|reflexivity]).
